@@ -802,6 +802,32 @@ func receiversFor(t target) []receiver {
 			}
 		}
 	}
+	// boundary receivers: empty instances of the collection classes that include the mixin
+	for _, em := range []struct {
+		cls, expr string
+		bind      map[string]string
+	}{
+		{"Std::ArrayList", "::Std::ArrayList::[::Std::Int]()", map[string]string{"Val": "Std::Int"}},
+		{"Std::HashSet", "::Std::HashSet::[::Std::Int]()", map[string]string{"Val": "Std::Int"}},
+		{"Std::HashMap", "::Std::HashMap::[::Std::String, ::Std::Int]()", map[string]string{"Key": "Std::String", "Value": "Std::Int"}},
+	} {
+		for _, cand := range allNS {
+			cls, ok := cand.(*types.Class)
+			if !ok || cls.Name() != em.cls {
+				continue
+			}
+			for p := range types.Parents(cls) {
+				if p.Name() == name {
+					b := map[string]types.Type{}
+					for k, v := range em.bind {
+						b[k] = named(v)
+					}
+					rs = append(rs, receiver{expr: em.expr, bind: b})
+					break
+				}
+			}
+		}
+	}
 	return rs
 }
 
@@ -1664,6 +1690,13 @@ func judge(t target, i int, cl call, ir itemResult, debugMode bool) (j judged) {
 			break
 		}
 		v := ir.val
+		if v.IsUndefined() {
+			// the VM's internal "no value" marker escaped into the program: no declared type admits it, and using it crashes
+			j.outcome = "returned undefined"
+			add(fmt.Sprintf("%s returns the VM's internal undefined value but is declared to return %s", t.id, types.Inspect(m.ReturnType)),
+				what+fmt.Sprintf("\n  declared return type: %s\n  returned: undefined (the native returned no value and no error)", types.Inspect(m.ReturnType)))
+			break
+		}
 		j.outcome = "returned " + className(v)
 		if _, ok := safeClass(v); !ok {
 			add(fmt.Sprintf("%s returns a malformed value (a reference to a nil Go pointer): its class cannot be taken", t.id),
@@ -1963,7 +1996,7 @@ func main() {
 		Prop:  "C28",
 		Level: "exploration",
 		Rule: "every method declared in the type environment built from the std headers, under every class/mixin/module/interface of Std (quick: a fixed list of core classes; thorough: all), " +
-			"one case per method (overloads separately): receivers from per-type literal pools (≤ 6: for ArrayList/ArrayTuple also the unboxed specialisations Float, UInt8, Symbol; class type parameters bound per pool literal; mixins through instances of ≤ 3 including classes), method-level type parameters unbound (default Int) and, as a second variant, bound to the receiver's own element type, " +
+			"one case per method (overloads separately): receivers from per-type literal pools (≤ 6: for ArrayList/ArrayTuple also the unboxed specialisations Float, UInt8, Symbol; class type parameters bound per pool literal; mixins through instances of ≤ 3 including classes plus empty ArrayList/HashSet/HashMap instances), method-level type parameters unbound (default Int) and, as a second variant, bound to the receiver's own element type, " +
 			"× every admissible arity (required … required+optional; rest parameters get no arguments) × argument tuples from per-type pools (≤ 3 values per parameter, thorough 4; full product when ≤ 12 tuples, else the first tuple and every single-parameter variation); " +
 			"each call type-checked as its own item (rejections = pool gaps, counted), run in the VM, result/thrown value inspected in Go (value.IsA) against the declared return/throw type; " +
 			"non-trivial = a call that was accepted and ran to a result or an Elk error",
